@@ -162,6 +162,20 @@ nonzero = sym('nonzero', (T,), B, lambda v: bool(_np.any(v != 0)))
 
 setwhere_eq = sym('setwhere_eq', (T, R, R), T, lambda a, c, s: _np.where(a == c, s, a))      # a[a == c] = s
 
+sqT = sq
+zeros2 = sym('zeros2', (I, I), T, lambda n, m: _np.zeros((int(n), int(m))))
+sdivl = sym('sdivl', (R, T), T, lambda c, a: c / a)          # scalar / array
+sdivr = sym('sdivr', (T, R), T, lambda a, c: a / c)          # array / scalar
+
+colscale = sym('colscale', (T, T), T, lambda A, y: A * y)                 # A * y  with A (d, n), y (n,): column j scaled by y[j]
+colscale2 = sym('colscale2', (T, T), T, lambda A, r: A * r)               # A * r  with r of shape (1, n)
+addaxis0 = sym('addaxis0', (T,), T, lambda v: v[None, :])
+psd = sym('psd', (T,), B, lambda a: bool(_np.all(_np.linalg.eigvalsh((a + a.T) / 2) >= -1e-9 * max(1.0, abs(a).max()))))
+allT = sym('allT', (T,), B, lambda a: bool(a.all()))
+isfiniteT = sym('isfiniteT', (T,), T, lambda a: _np.isfinite(a))
+
+is_initial = sym('is_initial', (T,), B, None)           # ghost: this matrix is the untouched copy of the initial matrix
+
 # ---- spec functions (contract vocabulary)
 mdist = sym('mdist', (T, T, T), R,                         # d_L(x, y) = || L (x - y) ||_2
             lambda L, x, y: float(_np.sqrt(((L @ (x - y)) ** 2).sum())))
@@ -296,6 +310,28 @@ ax('at1_zeros_', 'lib', [n, j], at1(zeros(n), j) == 0, [z3.MultiPattern(at1(zero
 ax('at1_setwhere_eq', 'lib', [a, s, t, j], at1(setwhere_eq(a, s, t), j) == z3.If(at1(a, j) == s, t, at1(a, j)),
    [z3.MultiPattern(at1(setwhere_eq(a, s, t), j))], ['at1', 'setwhere_eq'], gen=dict(a='vec(n)', s='real', t='real', j='idx(n)'))
 ax('pd_eye', 'math', [n], pd(eye(n)), [z3.MultiPattern(eye(n))], ['eye'], lean='posDef_one')
+# ---- lib: elementwise operations at a generic element of a rank-2 array
+ii = z3.Int('ii')
+_el2 = [('add', lambda x_, y_: add(x_, y_), lambda p_, q_: p_ + q_, 2), ('sub', lambda x_, y_: sub(x_, y_), lambda p_, q_: p_ - q_, 2),
+        ('mul', lambda x_, y_: mul(x_, y_), lambda p_, q_: p_ * q_, 2)]
+for _n, _mk, _f, _ar in _el2:
+  ax('at2_%s' % _n, 'lib', [a, b, ii, j], at2(_mk(a, b), ii, j) == _f(at2(a, ii, j), at2(b, ii, j)), [z3.MultiPattern(at2(_mk(a, b), ii, j))], ['at2', _n],
+     gen=dict(a='mat(n,d)', b='mat(n,d)', ii='idx(n)', j='idx(d)'))
+ax('at2_sq', 'lib', [a, ii, j], at2(sq(a), ii, j) == at2(a, ii, j) * at2(a, ii, j), [z3.MultiPattern(at2(sq(a), ii, j))], ['at2', 'sq'],
+   gen=dict(a='mat(n,d)', ii='idx(n)', j='idx(d)'))
+ax('at2_sqrtT', 'lib', [a, ii, j], at2(sqrtT(a), ii, j) == sqrt(at2(a, ii, j)), [z3.MultiPattern(at2(sqrtT(a), ii, j))], ['at2', 'sqrtT'],
+   gen=dict(a='pmat(n,d)', ii='idx(n)', j='idx(d)'))
+ax('at2_sadd', 'lib', [a, s, ii, j], at2(sadd(a, s), ii, j) == at2(a, ii, j) + s, [z3.MultiPattern(at2(sadd(a, s), ii, j))], ['at2', 'sadd'],
+   gen=dict(a='mat(n,d)', s='real', ii='idx(n)', j='idx(d)'))
+ax('at2_smul', 'lib', [a, s, ii, j], at2(smul(s, a), ii, j) == s * at2(a, ii, j), [z3.MultiPattern(at2(smul(s, a), ii, j))], ['at2', 'smul'],
+   gen=dict(a='mat(n,d)', s='real', ii='idx(n)', j='idx(d)'))
+ax('at2_sdivl', 'lib', [a, s, ii, j], z3.Implies(at2(a, ii, j) != 0, at2(sdivl(s, a), ii, j) * at2(a, ii, j) == s), [z3.MultiPattern(at2(sdivl(s, a), ii, j))],
+   ['at2', 'sdivl'], gen=dict(a='pmat(n,d)', s='real', ii='idx(n)', j='idx(d)'))
+ax('at2_minimum_s', 'lib', [a, s, ii, j], at2(minimum_s(s, a), ii, j) == z3.If(at2(a, ii, j) <= s, at2(a, ii, j), s),
+   [z3.MultiPattern(at2(minimum_s(s, a), ii, j))], ['at2', 'minimum_s'], gen=dict(a='mat(n,d)', s='real', ii='idx(n)', j='idx(d)'))
+ax('at2_zeros2', 'lib', [n, i, ii, j], at2(zeros2(n, i), ii, j) == 0, [z3.MultiPattern(at2(zeros2(n, i), ii, j))], ['at2', 'zeros2'])
+ax('clip_psd', 'math', [a, v, s], z3.Implies(s >= 0, psd(mm(colscale2(a, maximum_s(s, v)), tr(a)))), [z3.MultiPattern(mm(colscale2(a, maximum_s(s, v)), tr(a)))],
+   ['mm', 'colscale2', 'maximum_s', 'tr'], lean='clip_psd', gen=dict(a='mat(d,d)', v='row(d)', s='nnreal'))
 # ---- math: positive definite matrices (Lean: lean/itml_rank_one.lean)
 ax('pd_quad_pos', 'math', [a, v], z3.Implies(z3.And(pd(a), nonzero(v)), dot(vm(v, a), v) > 0), [z3.MultiPattern(dot(vm(v, a), v))], ['dot', 'vm'],
    lean='posDef_quad_pos', gen=dict(a='spd(d)', v='vec(d)'))
